@@ -282,6 +282,32 @@ func c03Exec(op string) string {
 	if esc {
 		check("indented", bi, erri)
 	}
+	// the same content in other Go container types (lists of strings as []string anywhere; below the
+	// levels the root rules look at also mxj.Map, map[interface{}]interface{}, map[string]string):
+	// the encoders treat them as the plain containers - same bytes
+	if tv := retypeBelowRoot(v, hashStr(op), "MYSL"); len(notes) == 0 && enc(tv) != enc(v) {
+		var bt, bti []byte
+		var et1, et2 error
+		switch api {
+		case 0:
+			bt, et1 = mxj.Map(tv.(map[string]interface{})).Xml()
+			bti, et2 = mxj.Map(tv.(map[string]interface{})).XmlIndent("", "  ")
+		case 1:
+			bt, et1 = mxj.Map(tv.(map[string]interface{})).Xml(rt)
+			bti, et2 = mxj.Map(tv.(map[string]interface{})).XmlIndent(" ", "\t", rt)
+		case 2:
+			bt, et1 = mxj.AnyXml(tv, rt, et)
+			bti, et2 = mxj.AnyXmlIndent(tv, "", "  ", rt, et)
+		case 3:
+			bt, et1 = mxj.AnyXml(tv)
+			bti, et2 = mxj.AnyXmlIndent(tv, "", " ")
+		}
+		if et1 != nil || !bytes.Equal(bt, b) {
+			notes = append(notes, "TYPED the same content held in other Go container types ("+clip(enc(tv), 120)+") is encoded differently: "+clip(string(bt), 200)+" instead of "+clip(string(b), 200))
+		} else if (et2 == nil) != (erri == nil) || !bytes.Equal(bti, bi) {
+			notes = append(notes, "TYPED the same content held in other Go container types is indented differently: "+clip(string(bti), 200))
+		}
+	}
 	return "ok " + encStr(string(b)) + " | " + strings.Join(notes, "; ")
 }
 
